@@ -378,7 +378,10 @@ Proof. apply (caekl_candidates_nonneg_h hT hT_submod). Qed.
 
 (* conditional entropy itself (residual entropy is a sum of such terms) *)
 Theorem condH_nonneg_table n X Y tm : cond_H n X Y = Some tm -> 0 <= heval (fun S => Hs S t) tm.
-Proof. intros Hc. rewrite (condH_eval_ch hT n X Y tm Hc). apply ch_nonneg, hT_submod. Qed.
+Proof.
+  intros Hc. change (0 <= heval hT tm).
+  rewrite (condH_eval_ch hT n X Y tm Hc). apply ch_nonneg, hT_submod.
+Qed.
 
 End Table.
 
